@@ -117,13 +117,22 @@ pub fn run(ctx: &Ctx) -> i32 {
         }
         return rep.finish();
     }
-    let n = ctx.scale(5000, 50000);
+    let n = ctx.scale(15000, 100000);
     let mut trees = check::draw(ctx.seed, 0xC16, n, 420);
     let open_f3 = known.iter().any(|k| k.property == "C16" && k.status == "open" && k.signature == "multiple_into_targets_hashmap_order");
     let mut my_hashes: Vec<u64> = Vec::with_capacity(n);
-    for i in 0..trees.len() {
-        let dna = trees[i].current();
-        let (src, nt, nf) = request(&dna);
+    let dnas: Vec<Vec<u16>> = trees.iter().map(|t| t.current()).collect();
+    use rayon::prelude::*;
+    let pre: Vec<((String, usize, usize), u64, Option<String>)> = dnas
+        .par_iter()
+        .map(|d| {
+            let r = request(d);
+            let h = fnv64(&outcome_text(&engine::expand_src(&r.0)));
+            let u = unstable(&r.0);
+            (r, h, u)
+        })
+        .collect();
+    for (i, ((src, nt, nf), h0, unst)) in pre.into_iter().enumerate() {
         rep.evaluations += 1;
         rep.count("expansions", REPS as u64);
         rep.class(&format!("into_targets_{}", nt.min(6)));
@@ -134,8 +143,8 @@ pub fn run(ctx: &Ctx) -> i32 {
         if i < 2 {
             rep.sample(json!(src));
         }
-        my_hashes.push(fnv64(&outcome_text(&engine::expand_src(&src))));
-        if let Some(_m) = unstable(&src) {
+        my_hashes.push(h0);
+        if let Some(_m) = unst {
             if open_f3 && nt >= 2 {
                 let k = known.iter().find(|k| k.signature == "multiple_into_targets_hashmap_order").unwrap();
                 rep.known(&k.id, &k.what);
